@@ -288,6 +288,70 @@ func DeclAtoms() []Atom {
 	for _, c := range consts {
 		add("const/"+c.n, "const", false, c.needs, &Decl{Const: &Const{Name: "K", Type: c.t, Value: c.v}})
 	}
+	// include paths: the included file is known by its base name whatever the path looks like
+	for _, ip := range []struct{ n, main, file, text string }{
+		{"dot-slash", "main.frugal", "base.frugal", "./base.frugal"},
+		{"subdir", "main.frugal", "sub/base.frugal", "sub/base.frugal"},
+		{"dotted-dir", "main.frugal", "api.v2/base.frugal", "api.v2/base.frugal"},
+		{"parent-dir", "app/main.frugal", "shared/base.frugal", "../shared/base.frugal"},
+		{"parent-dotted-dir", "app/main.frugal", "shared.d/base.frugal", "../shared.d/base.frugal"},
+	} {
+		f := &File{Name: ip.main, Decls: []*Decl{{NS: &NS{Scope: "go", Value: "mainpkg"}}, {NS: &NS{Scope: "java", Value: "mainpkg"}}, {Include: ip.text},
+			{Const: &Const{Name: "FIRST", Type: T("base.Kind"), Value: Ident("base.Kind.B")}},
+			{Struct: &Struct{Kind: "struct", Name: "Holder", Fields: []*Field{{ID: 1, Name: "t", Req: "default", Type: T("base.Thing")}, {ID: 2, Name: "k", Req: "default", Type: T("base.Kind"), Default: Ident("base.Kind.B")},
+				{ID: 3, Name: "ids", Req: "optional", Type: List(T("base.id"))}}}},
+			{Service: &Service{Name: "Child", Extends: "base.BaseSvc", Methods: []*Method{{Name: "own", Ret: T("base.Thing"), Args: []*Field{{ID: 1, Name: "k", Req: "default", Type: T("base.Kind")}}}}}},
+		}}
+		b := BaseFile()
+		b.Name = ip.file
+		out = append(out, Atom{Name: "include-path/" + ip.n, Class: "include-path", Prog: &Program{Files: []*File{f, b}}})
+	}
+	// defaults and constants given by the name of another constant: of the same file, of an
+	// included file, and of an included file whose value names further constants of that file while
+	// the including file has (or has not) constants of the same names with other values
+	limits := func() *File {
+		return &File{Name: "limits.frugal", Decls: []*Decl{
+			{NS: &NS{Scope: "go", Value: "limits"}}, {NS: &NS{Scope: "java", Value: "limits"}},
+			{Const: &Const{Name: "BATCH", Type: T("i32"), Value: Int(10)}},
+			{Const: &Const{Name: "NAME", Type: T("string"), Value: Str("lim")}},
+			{Const: &Const{Name: "SIZES", Type: List(T("i32")), Value: LList(Ident("BATCH"), Int(20))}},
+			{Const: &Const{Name: "NAMES", Type: List(T("string")), Value: LList(Ident("NAME"), Str("x"))}},
+			{Const: &Const{Name: "LABELS", Type: Map(T("string"), T("i32")), Value: LMap([]*Lit{Ident("NAME")}, []*Lit{Ident("BATCH")})}},
+		}}
+	}
+	crefs := []struct {
+		n    string
+		t    *Type
+		v    string
+		same bool // the main file declares BATCH and NAME too, with other values
+		inc  bool
+	}{
+		{"local/i32", T("i32"), "BATCH", true, false}, {"local/list", List(T("i32")), "MYSIZES", true, false},
+		{"included/i32", T("i32"), "limits.BATCH", false, true}, {"included/i32/namesake", T("i32"), "limits.BATCH", true, true},
+		{"included/string/namesake", T("string"), "limits.NAME", true, true},
+		{"included/list", List(T("i32")), "limits.SIZES", false, true}, {"included/list/namesake", List(T("i32")), "limits.SIZES", true, true},
+		{"included/list-string/namesake", List(T("string")), "limits.NAMES", true, true},
+		{"included/map", Map(T("string"), T("i32")), "limits.LABELS", false, true}, {"included/map/namesake", Map(T("string"), T("i32")), "limits.LABELS", true, true},
+	}
+	for _, c := range crefs {
+		for _, req := range []string{"default", "required", "optional"} {
+			f := &File{Name: "main.frugal", Decls: []*Decl{{NS: &NS{Scope: "go", Value: "mainpkg"}}, {NS: &NS{Scope: "java", Value: "mainpkg"}}}}
+			if c.inc {
+				f.Decls = append(f.Decls, &Decl{Include: "limits.frugal"})
+			}
+			if c.same {
+				f.Decls = append(f.Decls, &Decl{Const: &Const{Name: "BATCH", Type: T("i32"), Value: Int(500)}}, &Decl{Const: &Const{Name: "NAME", Type: T("string"), Value: Str("mine")}},
+					&Decl{Const: &Const{Name: "MYSIZES", Type: List(T("i32")), Value: LList(Ident("BATCH"), Int(3))}})
+			}
+			f.Decls = append(f.Decls, &Decl{Struct: &Struct{Kind: "struct", Name: "Holder", Fields: []*Field{
+				{ID: 1, Name: "f", Req: req, Type: c.t, Default: Ident(c.v)}, {ID: 2, Name: "tail", Req: "default", Type: T("i32")}}}})
+			p := &Program{Files: []*File{f}}
+			if c.inc {
+				p.Files = append(p.Files, limits())
+			}
+			out = append(out, Atom{Name: "constref/" + c.n + "/" + req, Class: "constref", Prog: p})
+		}
+	}
 	// typedefs
 	for _, s := range Shapes(1) {
 		add("typedef/"+s.Type.String(), "typedef", s.Include, s.Needs, &Decl{Typedef: &Typedef{Name: "Alias", Type: s.Type}})
@@ -349,6 +413,27 @@ func DeclAtoms() []Atom {
 		&Decl{Service: &Service{Name: "Child", Extends: "base.BaseSvc", Methods: []*Method{{Name: "childPing"}}}})
 	add("service/include-types", "service", true, nil,
 		&Decl{Service: &Service{Name: "Svc", Methods: []*Method{{Name: "get", Ret: T("base.Thing"), Args: []*Field{{ID: 1, Name: "k", Req: "default", Type: T("base.Kind")}, {ID: 2, Name: "i", Req: "default", Type: T("base.id2")}}, Throws: []*Field{{ID: 1, Name: "e", Req: "default", Type: T("base.BaseErr")}}}}}})
+	// the include is referenced from one position of one method only (import lists are computed per service)
+	for _, pos := range []struct {
+		n   string
+		ret *Type
+		arg *Type
+		thr *Type
+	}{
+		{"ret", T("base.Thing"), nil, nil}, {"arg", nil, T("base.Kind"), nil}, {"throws", nil, nil, T("base.BaseErr")},
+		{"ret-list", List(T("base.Thing")), nil, nil}, {"ret-map-value", Map(T("string"), T("base.Thing")), nil, nil}, {"ret-map-key", Map(T("base.Kind"), T("i32")), nil, nil},
+		{"arg-map-value", nil, Map(T("i32"), T("base.Kind")), nil}, {"arg-set", nil, Set(T("base.id")), nil},
+		{"ret-list-of-map-value", List(Map(T("string"), T("base.Thing"))), nil, nil}, {"arg-map-of-list-value", nil, Map(T("string"), List(T("base.Thing"))), nil},
+	} {
+		m := &Method{Name: "only", Ret: pos.ret}
+		if pos.arg != nil {
+			m.Args = []*Field{{ID: 1, Name: "a", Req: "default", Type: pos.arg}}
+		}
+		if pos.thr != nil {
+			m.Throws = []*Field{{ID: 1, Name: "e", Req: "default", Type: pos.thr}}
+		}
+		add("service/include-only-in/"+pos.n, "service", true, nil, &Decl{Service: &Service{Name: "Svc", Methods: []*Method{{Name: "plain", Ret: T("i32")}, m}}})
+	}
 	// annotations on every kind of declaration that takes them (one, two and four per site)
 	{
 		a1 := []Annot{{"deprecated", "use other"}}
